@@ -32,6 +32,12 @@ ASSUMPTIONS = [
 ]
 PROBE_CELLS = {'Sheet1!ZZ1': 5, 'Sheet1!ZZ2': '=ZZ1+1'}
 SAFETY_STEPS = 3_000_000
+# secondary gauges for time spent where the step clock cannot see (C code:
+# regular expressions, pandas): CPU seconds of one evaluate(), and wall
+# seconds of a whole case (kernel: a case that hangs is a violation here)
+CPU_BOUND = 12.0
+CASE_TIMEOUT = 240
+TIMEOUT_IS_VIOLATION = 'budget:wall'
 
 CONSTRUCTS = ('ref', 'rep', 'range', 'name', 'if', 'guard')
 
@@ -221,6 +227,11 @@ def gen_case(seed, tier='quick'):
         else:
             nodes[i]['terms'].append(
                 {'t': 'if', 'live': addrs[live], 'dead': addrs[j]})
+    if cls in ('acyclic', 'cycle', 'selfloop', 'cycle_fail') and \
+            rng.random() < 0.2:
+        # a cell whose value is an Excel error (#DIV/0!): not a failure, but
+        # every sum it takes part in becomes that error value
+        nodes[rng.randrange(n)]['errval'] = True
     switches = {}
     if cls == 'switch_cycle':
         # IF(V1>0, <edge that closes a cycle>, <harmless>) - the cycle exists
@@ -343,6 +354,11 @@ def _ref(frm_sheet, to_addr, qualify, default='Sheet1'):
     return to_addr
 
 
+def rng_first(nd):
+    # deterministic choice of the error's position from the node itself
+    return (nd['k'] + len(nd['terms'])) % 2 == 0
+
+
 def probe_cells(world):
     s0 = world.get('sheets', ['Sheet1'])[0]
     return {f'{s0}!ZZ1': 5, f'{s0}!ZZ2': '=ZZ1+1'}
@@ -393,6 +409,9 @@ def render(world):
             body = f'FLAKY({body})'
         elif nd['fail']:
             body = body + f"+FAIL_{nd['fail'].upper()}()"
+        if nd.get('errval'):
+            body = '1/0+' + body if rng_first(nd) else body + '+1/0'
+            parts = parts + ['1/0']
         if nd.get('pause') and len(parts) > 1:
             body = f'PAUSE({body})'
         if len(parts) == 1 and nd['fail'] is None:
@@ -537,6 +556,8 @@ def expectation(g, e, cells, flaky_armed):
         # live part acyclic and not failing
         exp['allow'] = ['value']
         exp['value'] = g.value(e)
+        if any(g.nodes[a].get('errval') for a in Rl):
+            exp['value'] = 'errval'
         if cyc_all:
             exp['allow'].append('cycle')
         if fa:
@@ -723,6 +744,8 @@ def _run_case(case):
                 else:
                     bump('fault_not_fired:interrupt')
             else:
+                import time as _time
+                cpu0 = _time.process_time()
                 nested_box = []
                 if op.get('nested') and op['nested'] in g.nodes:
                     ntarget = op['nested']
@@ -756,6 +779,19 @@ def _run_case(case):
             bump('sim_steps', st.steps)
             log.append([seq, 'eval', target, fired, out,
                         st.steps, st.depth_seen, st.msg_seen])
+            if fault is None or fault.get('kind') != 'interrupt':
+                import time as _time
+                cpu = _time.process_time() - cpu0
+                stats['max:cpu_ms_per_evaluate'] = max(
+                    stats.get('max:cpu_ms_per_evaluate', 0), int(cpu * 1000))
+                if cpu > CPU_BOUND:
+                    viol = {'tag': 'budget:cpu', 'detail': {
+                        'op': seq, 'target': target, 'outcome': out,
+                        'cpu_seconds': round(cpu, 1), 'steps': st.steps,
+                        'reachable': exp['R'],
+                        'why': f'one evaluate() burnt more than {CPU_BOUND}s '
+                        'of CPU outside traced Python lines'}}
+                    break
             if uf.fired:
                 bump('fault:transient_userfunc', uf.fired)
                 bump('faults_fired', uf.fired)
@@ -827,7 +863,11 @@ def judge(seq, target, out, exp, st, phase):
         else:
             tag = 'unexpected-failure'
         return {'tag': tag, 'detail': det}
-    if kind == 'value' and 'value' in exp:
+    if kind == 'value' and exp.get('value') == 'errval':
+        # an error *value* is in play: how aggregates treat it is not this
+        # property's business - only that no cycle / failure is reported
+        pass
+    elif kind == 'value' and 'value' in exp:
         c = out[1]
         ok = False
         if c[0] == 'Number':
